@@ -91,7 +91,16 @@ func c15Baseline(prog *parser.Program, input string) c15Base {
 
 // c15CancelAt cancels before instruction number k+1 (k = 0: before the first).
 func c15CancelAt(c *core.Ctx, p c15Prog, prog *parser.Program, base c15Base, k int, buffered bool) {
-	ctx, cancel := context.WithCancel(context.Background())
+	// every third point uses a context with a recorded cause: what the call
+	// returns is the context's error (ctx.Err()), not the caller's cause
+	var ctx context.Context
+	var cancel func()
+	if k%3 == 1 {
+		c2, cc := context.WithCancelCause(context.Background())
+		ctx, cancel = c2, func() { cc(errors.New("the caller's reason")) }
+	} else {
+		ctx, cancel = context.WithCancel(context.Background())
+	}
 	defer cancel()
 	var rec bytes.Buffer
 	var bw *bufio.Writer
@@ -154,7 +163,7 @@ func c15CancelAt(c *core.Ctx, p c15Prog, prog *parser.Program, base c15Base, k i
 		c.Fail(sig("late-stop"), cs, fmt.Sprintf("%d interpreter steps executed after cancellation (limit %d); err=%v", after, c15AlarmSteps, err))
 		return
 	}
-	if errors.Is(err, context.Canceled) {
+	if err != nil && err == ctx.Err() {
 		if !strings.HasPrefix(base.out, got) {
 			c.Fail(sig("output-not-a-prefix"), cs, fmt.Sprintf("got %q", trunc(got, 100)))
 		}
@@ -223,13 +232,20 @@ func c15Run(c *core.Ctx) {
 		}
 		// pre-cancelled and already-expired contexts
 		if c.Mine() {
-			for _, kind := range []string{"pre-cancelled", "deadline"} {
+			for _, kind := range []string{"pre-cancelled", "pre-cancelled-cause", "deadline-cause", "deadline"} {
 				var ctx context.Context
 				var cancel context.CancelFunc
 				want := context.Canceled
 				if kind == "pre-cancelled" {
 					ctx, cancel = context.WithCancel(context.Background())
 					cancel()
+				} else if kind == "pre-cancelled-cause" {
+					c2, cc := context.WithCancelCause(context.Background())
+					cc(errors.New("the caller's reason"))
+					ctx, cancel = c2, func() {}
+				} else if kind == "deadline-cause" {
+					ctx, cancel = context.WithDeadlineCause(context.Background(), time.Unix(1, 0), errors.New("the caller's reason"))
+					want = context.DeadlineExceeded
 				} else {
 					ctx, cancel = context.WithDeadline(context.Background(), time.Unix(1, 0))
 					want = context.DeadlineExceeded
@@ -247,7 +263,7 @@ func c15Run(c *core.Ctx) {
 				c.NoteMax("max_steps_after_cancel", int64(steps))
 				if steps > c15AlarmSteps {
 					c.Fail("late-stop:"+kind+":prog="+p.Name, cs, fmt.Sprintf("%d steps with an already finished context", steps))
-				} else if !errors.Is(err, want) && !(err == nil && out.String() == base.out && st == base.status && !base.err) {
+				} else if err != want && !(err == nil && out.String() == base.out && st == base.status && !base.err) {
 					c.Fail("wrong-result:"+kind+":prog="+p.Name, cs, fmt.Sprintf("err=%v want %v", err, want))
 				}
 			}
@@ -644,7 +660,7 @@ func init() {
 	core.Register(&core.Check{
 		ID:    "C15",
 		Level: "model_checking",
-		Rule: "deviation-bounded environment exploration: for 19 programs (tight loop, nested calls, recursion, for-in, main-loop rules, END loop, pending printf output, getline loop, exit after loops, runtime error in BEGIN / function / rule / END / for-in body) the context is cancelled before VM step k for every k<=300 + every 7th k<=3000 + every 61st up to the end (thorough: every k<=3000 + every 7th), with unbuffered and bufio-wrapped output, plus pre-cancelled and expired contexts; " +
+		Rule: "deviation-bounded environment exploration: for 19 programs (tight loop, nested calls, recursion, for-in, main-loop rules, END loop, pending printf output, getline loop, exit after loops, runtime error in BEGIN / function / rule / END / for-in body) the context is cancelled before VM step k for every k<=300 + every 7th k<=3000 + every 61st up to the end (thorough: every k<=3000 + every 7th), with unbuffered and bufio-wrapped output (every third point on a context with a recorded cause), plus pre-cancelled and expired contexts with and without a cause: the error returned is ctx.Err() itself; " +
 			"for 8 programs waiting on child processes (system, cmd|getline, print|cmd+close, inside a function/loop, in END, a killed shell whose descendant keeps the output pipe open) every placement of the cancel among the scheduling points of the virtual process world up to 2 (thorough 3) deviations; 8 record-driven programs (bare regex patterns matching / not matching, negated, expression, range, several rules) on 6000 records delivered one per Read, cancelled before the call or at record 0/1/10/2000: records consumed after the cancellation <= the same allowance; never-cancelled ExecuteContext vs Execute on the C01 misc/builtins/calls/control program space and on 9 programs with child processes in the virtual world; " +
 			"state = one program, transition = one execution; distinct = distinct (program, steps-after-cancel bucket, result)",
 		Assumptions: []string{
